@@ -304,7 +304,7 @@ func c01Terminal(w *world, path []erEvent, report func(msg string)) {
 }
 
 func TestVerifC01(t *testing.T) {
-	r := eng.Start("C01", "model_checking", 100*time.Second, 15*time.Minute)
+	r := eng.Start("C01", "model_checking", 300*time.Second, 15*time.Minute)
 	r.Assume("handlers are gated stubs scripted per (task, phase, retries used); they never touch the state themselves",
 		"Ensure is treated as always enabled; the visiting order of an Ensure pass is owned through hook H2",
 		"abort reference: DESIGN.md Appendix A (sandwich S_min <= S_impl <= S_max at the first failure)")
@@ -314,6 +314,24 @@ func TestVerifC01(t *testing.T) {
 	} else {
 		cfgs = enumConfigs([]int{1, 2, 3}, scriptSpace{failDo: 2, failUndo: 1, requireFail: true, specials: []script{sNoUndo, sRetryOnce, sWaitDone}, maxSpecial: 2}, true, []int{0, 1, 2})
 		cfgs = append(cfgs, enumConfigs([]int{4}, scriptSpace{failDo: 1, failUndo: 1, requireFail: true, specials: []script{sNoUndo, sWaitDone}, maxSpecial: 1}, true, []int{0, 2})...)
+	}
+	// the order in which tasks were added to the change is what abortLanes/abortTasks iterate over; it is independent
+	// of the dependency order: a family with every non-identity add-order (n = 3, one failing task, lanes)
+	{
+		base := enumConfigs([]int{3}, scriptSpace{failDo: 1, failUndo: 0, requireFail: true, specials: []script{sNoUndo}, maxSpecial: r.Pick(0, 1)}, true, []int{0})
+		idx := []int{0, 1, 2}
+		var fam []*erConfig
+		for _, c := range base {
+			for _, p := range permutations(idx) {
+				if p[0] == 0 && p[1] == 1 && p[2] == 2 {
+					continue
+				}
+				c2 := *c
+				c2.Order = p
+				fam = append(fam, &c2)
+			}
+		}
+		cfgs = append(fam, cfgs...)
 	}
 	r.Info("bounds", map[string]interface{}{"configurations": len(cfgs)})
 	var obsList []*c01Obs
@@ -574,7 +592,7 @@ func (o *c03Obs) noticeOccurrences(w *world) int {
 }
 
 func TestVerifC03(t *testing.T) {
-	r := eng.Start("C03", "model_checking", 100*time.Second, 15*time.Minute)
+	r := eng.Start("C03", "model_checking", 300*time.Second, 15*time.Minute)
 	r.Assume("handlers are gated stubs that eventually return when released; they never touch the state themselves",
 		"Ensure is treated as always enabled (periodic ensure loop); user aborts only on unready changes (as daemon/api_general.go:abortChange)",
 		"aggregate reference: the documented priority order of Change.Status with the Wait rule")
